@@ -512,13 +512,9 @@ pub fn hex_val(b: u8) -> u32 {
 }
 
 /// OSC 10 / 11 / 4;index set and query: `OSC Ps ; [index ;] spec ST`
-/// @bounds every opaque colour, palette index <= 999, set and query
-/// @encodes encoder::TTYEncoder::encode[Color]
-#[cfg_attr(kani, kani::proof)]
-#[cfg_attr(kani, kani::unwind(10))]
-pub fn c05_color() {
-    let which: u8 = any();
-    assume(which < 3);
+/// (`WHICH`: 0 foreground, 1 background, 2 palette entry; `QUERY`: ask instead of set)
+pub fn color_case<const WHICH: u8, const QUERY: bool>() {
+    let which = WHICH;
     let index: usize = any();
     assume(index <= 999);
     let name = match which {
@@ -527,7 +523,7 @@ pub fn c05_color() {
         _ => TerminalColor::Palette(index),
     };
     let rgb: [u8; 3] = any();
-    let query: bool = any();
+    let query: bool = QUERY;
     let color = if query { None } else { Some(RGBA::new(rgb[0], rgb[1], rgb[2], 255)) };
     let sink = encode(caps(ColorDepth::TrueColor, false), TerminalCommand::Color { name, color });
     let mut cur = Cur::new(&sink);
@@ -546,7 +542,7 @@ pub fn c05_color() {
         cur.eat(b';');
         assert!(cur.ok && had && idx as usize == index, "C05: wrong palette index");
     }
-    witness!(!query && which == 2, "palette colour set");
+    witness!(rgb[0] < 16, "channel below 0x10");
     if query {
         cur.eat(b'?');
     } else {
